@@ -100,6 +100,8 @@ pub mod replication_fetcher;
 pub mod driver_model;
 #[path = "gen/cmd_arms.rs"]
 pub mod cmd_arms;
+#[path = "gen/distance_glue.rs"]
+pub mod distance_glue;
 #[path = "gen/driver_fns.rs"]
 pub mod driver_fns;
 #[path = "gen/closest_items.rs"]
